@@ -129,7 +129,8 @@ def r1(ctx, res):
                                                                   if s_.kind == "call" and s_.callee.module.name.startswith("statham.")]
     eq_bool_aware = has("replace_bool(MV__)", eq_) or has("replace_bool(MV__)", view(eq_, ctx.prog).body) \
         or any(has("replace_bool(MV__)", g_.node) for g_ in eq_helpers_)
-    omit_bool_aware = has("replace_bool(MV__)", f) or has("isinstance(MV__, bool) == isinstance(MV__.default, bool)", f)
+    omit_bool_aware = has("replace_bool(MV__)", vb) or has("isinstance(MV__, bool) == isinstance(MV__.default, bool)", vb) \
+        or has("replace_bool(MV__)", f) or has("isinstance(MV__, bool) == isinstance(MV__.default, bool)", f)
     res.judge(True if (eq_bool_aware == omit_bool_aware) else False, f, "value == param.default (plain ==) vs Element.__eq__ (bool-aware)",
               reason="repr omits a keyword when it equals the default under Python's ==, but Element.__eq__ tells 0 from False: "
                      "repr(Element(uniqueItems=0)) is 'Element()', which is not equal to the original")
